@@ -65,6 +65,20 @@ Qed.
 Lemma set_all_app s l1 l2 b : set_all s (l1 ++ l2) b = set_all s l2 (set_all s l1 b).
 Proof. unfold set_all. apply fold_left_app. Qed.
 
+(* ---------- flag bits ---------- *)
+Lemma land_pow2 x k : N.land x (2 ^ k) = if N.testbit x k then 2 ^ k else 0.
+Proof.
+  apply N.bits_inj. intros n. rewrite N.land_spec, N.pow2_bits_eqb.
+  destruct (N.eqb_spec k n) as [->|Hne].
+  - rewrite andb_true_r. destruct (N.testbit x n); [rewrite N.pow2_bits_true; reflexivity|rewrite N.bits_0; reflexivity].
+  - rewrite andb_false_r. destruct (N.testbit x k); [rewrite N.pow2_bits_false by exact Hne; reflexivity|rewrite N.bits_0; reflexivity].
+Qed.
+Lemma flag_bit x k : flag x (2 ^ k) = if N.testbit x k then 1 else 0.
+Proof.
+  unfold flag. rewrite land_pow2. destruct (N.testbit x k); [|reflexivity].
+  replace (2 ^ k =? 0) with false; [reflexivity|]. symmetry. apply N.eqb_neq. apply N.pow_nonzero. discriminate.
+Qed.
+
 Section Tunnel.
   Variable E : endian.
   Notation LD := (ldqE E). Notation ST := (stqE E).
@@ -744,5 +758,40 @@ Section Tunnel.
       replace (proc0 + 12 + T - (proc0 + 12) <? T) with false by (symmetry; apply N.ltb_ge; lia).
       rewrite (lloop_run fd pduL (proc0 + 12) T HlenL) with (frs := map fst frs) (Ms := Ms) (rest := stale');
         [reflexivity|lia|exact HMs|exact Hok|exact Hsff|exact HsubM|lia|reflexivity|exact Hfuel].
+  Qed.
+
+  (* ---------- what the frames written are, field by field ---------- *)
+  Lemma id_out_bits fr n : N.testbit (id_out fr) n =
+    if n <? 29 then N.testbit (cf_canid fr) n else if n =? 31 then N.testbit (cf_canid fr) 31 else if n =? 30 then N.testbit (cf_canid fr) 30 else false.
+  Proof.
+    unfold id_out. change CAN_EFF_FLAG with (2 ^ 31). change CAN_RTR_FLAG with (2 ^ 30). rewrite !flag_bit.
+    assert (Hid : N.testbit (idof fr) n = if n <? 29 then N.testbit (cf_canid fr) n else false).
+    { unfold idof, CAN_EFF_MASK. change 0x1FFFFFFF with (N.ones 29). rewrite N.land_spec.
+      destruct (N.ltb_spec n 29) as [H|H]; [rewrite N.ones_spec_low by exact H; apply andb_true_r|rewrite N.ones_spec_high by exact H; apply andb_false_r]. }
+    destruct (N.testbit (cf_canid fr) 31) eqn:B31; destruct (N.testbit (cf_canid fr) 30) eqn:B30; cbn [N.eqb Pos.eqb];
+      rewrite ?N.lor_spec, ?N.pow2_bits_eqb, Hid;
+      destruct (N.ltb_spec n 29) as [H|H]; destruct (N.eqb_spec n 31) as [H1|H1]; destruct (N.eqb_spec n 30) as [H0|H0];
+      destruct (N.eqb_spec 31 n); destruct (N.eqb_spec 30 n); subst; try lia; try reflexivity;
+      rewrite ?orb_false_r, ?orb_true_r; try reflexivity; try congruence.
+  Qed.
+  Lemma flags_out_bits fr n : N.testbit (flags_out fr) n =
+    if n =? 0 then N.testbit (cf_fflags fr) 0 else if n =? 1 then N.testbit (cf_fflags fr) 1 else (n =? 2).
+  Proof.
+    unfold flags_out. change CANFD_BRS with (2 ^ 0). change CANFD_ESI with (2 ^ 1). change CANFD_FDF with (2 ^ 2). rewrite !flag_bit.
+    destruct (N.testbit (cf_fflags fr) 0) eqn:B0; destruct (N.testbit (cf_fflags fr) 1) eqn:B1; cbn [N.eqb Pos.eqb];
+      rewrite ?N.lor_spec, ?N.pow2_bits_eqb, ?N.bits_0;
+      destruct (N.eqb_spec n 0); destruct (N.eqb_spec n 1); destruct (N.eqb_spec n 2);
+      destruct (N.eqb_spec 0 n); destruct (N.eqb_spec 1 n); destruct (N.eqb_spec 2 n); subst; try lia; try reflexivity; try congruence.
+  Qed.
+  Lemma next_frame_data fd fs fr : frame_ok fd fr -> List.length (fs_data fs) = 64%nat -> normal (fs_data fs) ->
+    firstn (N.to_nat (cf_flen fr)) (fs_data (next_frame fd fs fr)) = firstn (N.to_nat (cf_flen fr)) (cf_fdata fr) /\
+    List.length (fs_data (next_frame fd fs fr)) = 64%nat.
+  Proof.
+    intros [Hlen [Hdl Hdn]] Hd Hn. cbn [next_frame fs_data]. split; [|rewrite length_upd; exact Hd].
+    assert (Hl64 : cf_flen fr <= 64) by (destruct fd; lia).
+    assert (Hpl : List.length (payload_of fr) = N.to_nat (cf_flen fr)).
+    { unfold payload_of. rewrite firstn_length, Hdl. destruct fd; lia. }
+    rewrite upd_as_app by (unfold blen; rewrite Hpl, Hd; lia). cbn [N.to_nat firstn app].
+    rewrite <- Hpl at 1. rewrite firstn_exact. reflexivity.
   Qed.
 End Tunnel.
